@@ -157,11 +157,8 @@ func (s *HeaderScanner) Next() bool {
 			break
 		}
 		e := n + d + 1
-		if c := bytes.IndexByte(s.B[n+1:e], ':'); c >= 0 {
-			s.nextColon = c
-			s.nextNewLine = d - c - 1
-			break
-		}
+		// A line that starts with SP or HTAB continues the field value (RFC 7230 section 3.2.4),
+		// whether or not it contains a ':' ("see\r\n http://host/", a time of day, an IPv6 address).
 		isMultiLineValue = true
 		n = e
 	}
